@@ -296,6 +296,17 @@ func (e *Explorer) next() bool {
 	return false
 }
 
+// preferModel switches the current model to one that also satisfies c, if any.
+func (e *Explorer) preferModel(c *Term) {
+	if e.replaying() && false {
+		return
+	}
+	res, m := e.solver.CheckWith(c, true)
+	if res == Sat && m != nil {
+		e.model = m
+	}
+}
+
 // maxValue returns the largest feasible value of t (<= limit) under the
 // current path condition; the result is recorded for replay.
 func (e *Explorer) maxValue(t *Term, limit uint64) uint64 {
